@@ -558,6 +558,9 @@ type verifC26 struct {
 
 	failSet bool // since the last open an enqueue of failIdx (> highest then) was refused by a failed commit
 	failIdx uint64
+
+	skipSet bool // since the last open, and after an emission, DeleteRange was called; skipTo = its largest argument
+	skipTo  uint64
 }
 
 func verifNewC26() *verifC26 {
@@ -612,6 +615,7 @@ func (h *verifC26) open() {
 	h.next = 0
 	h.emittedAny = false
 	h.failSet = false
+	h.skipSet = false
 	verifSettle()
 }
 
@@ -650,6 +654,13 @@ func (h *verifC26) wrapped() bool {
 	return h.emittedAny && h.lastEmitted == verifMaxU64
 }
 
+// skipped: the item the model expects next was stored after a DeleteRange whose argument was at
+// or above its index, issued after something had been emitted (recorded finding class: the
+// manager moves its read position past the DeleteRange argument, not just past what it deleted).
+func (h *verifC26) skipped() bool {
+	return h.skipSet && h.next < len(h.keys) && h.keys[h.next] <= h.skipTo
+}
+
 // observe compares every query call with the reference model.
 func (h *verifC26) observe() {
 	verifSettle()
@@ -657,6 +668,9 @@ func (h *verifC26) observe() {
 	wantNext := h.next < len(h.keys)
 	if hasNext != wantNext && h.wrapped() {
 		verifFinding("C26-index-maxuint64-wraps-cursor")
+	}
+	if wantNext && !hasNext && h.skipped() {
+		verifFinding("C26-delete-range-skips-later-items")
 	}
 	if wantNext {
 		verifAssert("C26-stored-item-offered", hasNext)
@@ -711,6 +725,12 @@ func (h *verifC26) enqueue(idx uint64, fail bool) {
 func (h *verifC26) deleteRange(idx uint64) {
 	err := h.q.DeleteRange(idx)
 	verifAssert("C26-delete-range-ok", err == nil)
+	if h.emittedAny {
+		if !h.skipSet || idx > h.skipTo {
+			h.skipTo = idx
+		}
+		h.skipSet = true
+	}
 	n := 0
 	for n < len(h.keys) && h.keys[n] <= idx {
 		n++
@@ -740,6 +760,9 @@ func (h *verifC26) consume() {
 	want := h.next < len(h.keys)
 	if got != want && h.wrapped() {
 		verifFinding("C26-index-maxuint64-wraps-cursor")
+	}
+	if want && !got && h.skipped() {
+		verifFinding("C26-delete-range-skips-later-items")
 	}
 	if !want {
 		verifAssert("C26-no-event-when-all-emitted", !got)
@@ -804,7 +827,7 @@ func (h *verifC26) step(i int, nops int, idx func(name string) uint64) {
 		verifReach("kill")
 		h.kill()
 	case vC26EnqueueFail:
-		h.enqueue(idx(verifName("idx", i)), true)
+		h.enqueue(idx(verifName("fidx", i)), true)
 	}
 	h.observe()
 }
@@ -817,13 +840,18 @@ func VerifC26History() {
 	verifPanicsAreViolations()
 	k, dom := 3, 4
 	if verifTier() == 1 {
-		k, dom = 5, 5
+		k, dom = 4, 4
 	}
 	h := verifNewC26()
 	defer h.finish()
 	h.open()
 	h.observe()
-	idx := func(name string) uint64 { return uint64(verifChoice(name, dom)) }
+	idx := func(name string) uint64 {
+		if name[0] == 'f' {
+			return h.highest + 1 // the enqueue whose commit fails is always a new index
+		}
+		return uint64(verifChoice(name, dom))
+	}
 	for i := 0; i < k; i++ {
 		h.step(i, vC26NumOps, idx)
 	}
@@ -836,9 +864,16 @@ func VerifC26History() {
 // follow, and the queue is compared with the model (queries, drain, restart, drain).
 func VerifC26Step() {
 	verifPanicsAreViolations()
+	// shapes (items in the file, operations): quick (2,1) (1,2); thorough (3,2) (1,3)
 	maxN, steps := 2, 1
+	if verifChoice("shape", 2) == 1 {
+		maxN, steps = 1, 2
+	}
 	if verifTier() == 1 {
-		maxN, steps = 3, 2
+		maxN, steps = maxN+1, steps+1
+		if maxN == 2 {
+			maxN = 1
+		}
 	}
 	h := verifNewC26()
 	defer h.finish()
